@@ -327,6 +327,8 @@ impl Node {
                     if let Some(handle) = registry.get(&pid).await {
                         handle.send(Message::Regular { from: None, body }).await?;
                     } else {
+                        #[cfg(feature = "verif-hooks")]
+                        edp_client::verif::yield_point("node:route:before_rpc_remove").await;
                         let pid_str = format!("{}.{}.{}", pid.id, pid.serial, pid.creation);
                         if let Some((_key, sender)) = pending_rpcs.remove(&pid_str) {
                             let _ = sender.send(body);
@@ -585,6 +587,12 @@ impl Node {
         &self.cookie
     }
 
+    /// Number of remote calls whose reply bookkeeping is still registered (read-only).
+    #[cfg(feature = "verif-hooks")]
+    pub fn pending_rpc_count(&self) -> usize {
+        self.pending_rpcs.len()
+    }
+
     pub async fn rpc_call(
         &self,
         remote_node: &str,
@@ -651,6 +659,8 @@ impl Node {
             reply_to_pid.id, reply_to_pid.serial, reply_to_pid.creation
         );
         self.pending_rpcs.insert(pid_str.clone(), tx);
+        #[cfg(feature = "verif-hooks")]
+        edp_client::verif::yield_point("node:rpc:after_insert").await;
 
         tracing::debug!("RPC call_request: {:?}", call_request);
         tracing::debug!("RPC reply_to_pid: {:?}", reply_to_pid);
@@ -663,6 +673,8 @@ impl Node {
                 .send_to_name(reply_to_pid, Atom::new("rex"), call_request)
                 .await?;
             tracing::trace!("Message sent to rex");
+            #[cfg(feature = "verif-hooks")]
+            edp_client::verif::yield_point("node:rpc:after_send").await;
         } else {
             tracing::error!("No connection found for node: {}", remote_node);
             self.pending_rpcs.remove(&pid_str);
@@ -672,6 +684,8 @@ impl Node {
         let response = tokio::time::timeout(timeout, rx).await;
 
         if response.is_err() {
+            #[cfg(feature = "verif-hooks")]
+            edp_client::verif::yield_point("node:rpc:before_timeout_remove").await;
             self.pending_rpcs.remove(&pid_str);
         }
 
